@@ -187,7 +187,7 @@ func termOf(x value, wantInt bool) *sym.Term {
 	switch x := x.(type) {
 	case sv:
 		if wantInt && x.T.Sort.K == sym.KBV {
-			panic(pathEnd{status: stUnsupported, detail: "mixing bit-vector and int-mode integers"})
+			return bvToInt(x.T, x.K)
 		}
 		return x.T
 	case bool:
@@ -517,4 +517,26 @@ func symConvScalar(fr *frame, kd types.BasicKind, x sv) value {
 		return mkScalar(r, kd)
 	}
 	panic(pathEnd{status: stUnsupported, detail: fmt.Sprintf("symbolic conversion %v -> %v", ks, kd)})
+}
+
+// bvToInt is the mathematical value of bit-vector t read with kind k's signedness.
+func bvToInt(t *sym.Term, k types.BasicKind) *sym.Term {
+	w := t.Sort.W
+	// strip zero extension: same unsigned value
+	inner := t
+	for inner.Op == sym.OZeroExt {
+		inner = inner.Args[0]
+	}
+	n := sym.BV2Nat(inner)
+	if !kindSigned(k) {
+		return n
+	}
+	_, hi := sym.URange(t)
+	if w <= 64 && hi < uint64(1)<<uint(w-1) {
+		return n // sign bit known clear
+	}
+	full := sym.BV2Nat(t)
+	two := new(big.Int).Lsh(big.NewInt(1), uint(w))
+	neg := sym.BVCmp(sym.OBVSlt, t, sym.BVConst(w, 0))
+	return sym.Ite(neg, sym.Arith(sym.OSub, full, sym.IntConstBig(two)), full)
 }
